@@ -10,6 +10,7 @@ mod sendall;
 mod sets;
 mod fixedtx;
 mod mdjson;
+mod keys;
 mod codec;
 mod parse;
 
@@ -34,6 +35,7 @@ fn main() {
         "codec" => codec::main(&a),
         "parse" => parse::main(&a),
         "json" => mdjson::main(&a),
+        "keys" => keys::main(&a),
         d => {
             eprintln!("unknown driver {}", d);
             std::process::exit(2);
